@@ -35,7 +35,7 @@ def floors(tier):
 
 
 def shards(tier, seed):
-    per = {"quick": 1200, "thorough": 60000}[tier]
+    per = {"quick": 6000, "thorough": 90000}[tier]
     return [{"seed": seed * 1000 + i, "n": per, "lang": "fr" if i % 8 == 7 else "en"} for i in range(16)]
 
 
@@ -63,15 +63,20 @@ def load(ctx, lib, flags):
         pass
 
 
-def make_cfg(rng, i):
+def make_cfg(rng, i, base=None):
     tags = set()
     cfg = G.Cfg(include_tags=False, missing=True, table_marker=False)
-    lib = G.gen_library(rng, 6, rng.randint(1, 2), cfg, tags, names=NAMES)
-    page = G.seq(rng, rng.randint(1, 3), NAMES, False, cfg, tags)
+    if base is None:
+        lib = G.gen_library(rng, 6, rng.randint(1, 2), cfg, tags, names=NAMES)
+        page = G.seq(rng, rng.randint(1, 3), NAMES, False, cfg, tags)
+    else:
+        lib, page = base["lib"], base["page"]
     sel_bits = i % 64
     sel = set(n for j, n in enumerate(NAMES) if sel_bits >> j & 1)
     notsel = set(n for n in NAMES if rng.random() < 0.15) if rng.random() < 0.4 else None
     flags = set(n for n in NAMES if rng.random() < 0.2) if rng.random() < 0.5 else set()
+    if base is not None:
+        flags = set(base["flags"])      # same stored library: no add_page between the calls of a group
     pf = rng.random() < 0.7
     hook = rng.choice(["none", "none", "record", "marker", "post"])
     mode = "selective"
@@ -115,6 +120,10 @@ def effective(c):
     return eff
 
 
+_SEL, _NOT = set(), set()
+_LOADED = {}
+
+
 def run_real(ctx, c, text=None, full=False):
     """Run the real expand; returns (output, hook_calls, post_calls)."""
     calls, posts = [], []
@@ -133,9 +142,16 @@ def run_real(ctx, c, text=None, full=False):
         elif c["mode"] == "identity":
             kw = dict(pre_expand=True, templates_to_expand=set(), expand_parserfns=False, expand_invoke=False)
         else:
-            kw = dict(pre_expand=True, templates_to_expand=set(c["sel"]),
-                      templates_to_not_expand=None if c["notsel"] is None else set(c["notsel"]),
-                      expand_parserfns=c["pf"])
+            if c.get("reuse_sets"):
+                # the caller keeps ONE set object per argument and edits it in place between calls
+                _SEL.clear(); _SEL.update(c["sel"])
+                _NOT.clear(); _NOT.update(c["notsel"] or ())
+                kw = dict(pre_expand=True, templates_to_expand=_SEL,
+                          templates_to_not_expand=None if c["notsel"] is None else _NOT, expand_parserfns=c["pf"])
+            else:
+                kw = dict(pre_expand=True, templates_to_expand=set(c["sel"]),
+                          templates_to_not_expand=None if c["notsel"] is None else set(c["notsel"]),
+                          expand_parserfns=c["pf"])
         if c["hook"] != "none":
             kw["template_fn"] = tf
             kw["post_template_fn"] = ptf
@@ -180,7 +196,13 @@ def reference(c, lang):
 
 def check(ctx, c, lang, obs=None):
     """Returns list of (sig, msg)."""
-    load(ctx, c["lib"], c["flags"] if c["mode"] == "selective" else [])
+    want = (id(c["lib"]), tuple(sorted(c["flags"] if c["mode"] == "selective" else [])), id(ctx))
+    if not (c.get("same_library_as_previous") and _LOADED.get("key") == want):
+        load(ctx, c["lib"], c["flags"] if c["mode"] == "selective" else [])
+        _LOADED["key"] = want
+        _LOADED["lib"] = c["lib"]     # keeps the id() alive
+    elif obs:
+        obs.count("calls-on-unchanged-store(no add_page since previous call)")
     exp, r, rcalls, rposts = reference(c, lang)
     if exp is None:
         return None, None
@@ -300,8 +322,19 @@ def run_shard(spec):
                    "core.Wtp._unexpanded_template": core.Wtp._unexpanded_template,
                    "core.expand_parserfn": (core.Wtp.expand, "expand_parserfn")})
     mins = 0
+    base = None
     for i in range(spec["n"]):
-        c = make_cfg(rng, i + spec["seed"])
+        # groups of 4 configurations share one stored library and page (no add_page in between): different
+        # selections / switches / hooks are applied one after the other to the SAME context state
+        if i % 4 == 0:
+            base = None
+        c = make_cfg(rng, i + spec["seed"], base)
+        if base is not None and c["mode"] == "selective" and base["mode"] == "selective":
+            c["same_library_as_previous"] = True
+            obs.count("grouped-configurations(no add_page in between)")
+        c["reuse_sets"] = (i // 4) % 2 == 1
+        if base is None:
+            base = c
         probs, r = check(ctx, c, lang, obs)
         if probs is None:
             obs.count("reference-cycle-skipped")
@@ -317,7 +350,7 @@ def run_shard(spec):
         obs.case(d, nontrivial=nontriv, sample=d)
         for sig, msg in dict(probs).items():
             c2 = c
-            if mins < 40 and "/class=" not in sig:
+            if mins < 40 and "/class=" not in sig and not c.get("same_library_as_previous"):
                 mins += 1
                 c2 = minimise(ctx, c, lang, sig)
                 p2, _ = check(ctx, c2, lang)
